@@ -12,6 +12,7 @@ import (
 	"time"
 
 	"verif/harness/internal/abs"
+	"verif/harness/internal/tlc"
 	"verif/harness/internal/work"
 )
 
@@ -110,6 +111,21 @@ func RunFamily(f *Family, tier string) int {
 		sel = f.Select(units, tier, rng)
 	}
 	dEnum := time.Since(tEnum).Seconds()
+	// unbounded (SMT) checks of the design run next to the replay
+	apaDone := make(chan []map[string]any, 1)
+	go func() {
+		var out []map[string]any
+		for _, a := range f.Unbounded {
+			oc, wall, err := tlc.Apalache(a.Module, a.Inv, filepath.Join(sc.Dir, "apalache-"+a.Inv), 5*time.Minute)
+			m := map[string]any{"module": a.Module, "invariant": a.Inv, "expected": a.Expect, "outcome": oc, "wall_s": wall, "what": a.What,
+				"cmd": "apalache-mc check --length=0 --init=Init --inv=" + a.Inv + " " + a.Module + ".tla"}
+			if err != nil {
+				m["outcome"] = "not run: " + firstLine(err.Error())
+			}
+			out = append(out, m)
+		}
+		apaDone <- out
+	}()
 	tExec := time.Now()
 	execs, err := Execute(f, sc, "u", sel, f.PackSize)
 	if err != nil {
@@ -359,6 +375,15 @@ func RunFamily(f *Family, tier string) int {
 			"packing several units as sibling optional sub-objects of one program does not change their behaviour (violations are re-executed as singletons)",
 		}, f.Assume...),
 		WallS: time.Since(t0).Seconds(), Violations: confirmed}
+	if apa := <-apaDone; len(apa) > 0 {
+		ev.Coverage["apalache"] = apa
+		for _, m := range apa {
+			oc, _ := m["outcome"].(string)
+			if !strings.HasPrefix(oc, "not run") && oc != m["expected"] {
+				return infra(f.Prop, fmt.Errorf("unbounded design-level check %v %v: outcome %s, expected %v", m["module"], m["invariant"], oc, m["expected"]))
+			}
+		}
+	}
 	if f.Judge == "build" { // programs, not documents, are the cases
 		ev.Coverage["evaluations"] = len(events)
 		ev.Coverage["distinct_nontrivial"] = len(events)
